@@ -1,2 +1,209 @@
+(* C18 — proofs about ArgumentList::remove, ArgumentsParser::parseAndRemove (for an
+   arbitrary tryConsume) and removeArgs (common.cpp). *)
 From Common Require Import Prelude.
 From C18 Require Import Model.
+
+(* --------------------------------------------------------- remove(where, k) *)
+Lemma erase_at_spec {A} i (l : list A) : erase_at i l = firstn i l ++ skipn (S i) l.
+Proof.
+  revert i; induction l as [|x l IH]; intros [|i]; simpl; try reflexivity.
+  f_equal. apply IH.
+Qed.
+
+Lemma skipn_skipn' {A} x y (l : list A) : skipn x (skipn y l) = skipn (y + x) l.
+Proof.
+  revert l; induction y as [|y IH]; intro l; [reflexivity|].
+  destruct l as [|a l]; [now destruct x | apply IH].
+Qed.
+
+Lemma al_remove_spec {A} (l : list A) w k : al_remove l w k = firstn w l ++ skipn (w + k) l.
+Proof.
+  revert l; induction k as [|k IH]; intro l.
+  - simpl. rewrite Nat.add_0_r. symmetry. apply firstn_skipn.
+  - cbn [al_remove]. rewrite IH, erase_at_spec.
+    destruct (Nat.le_gt_cases w (length l)) as [Hle | Hgt].
+    + assert (Lw : length (firstn w l) = w) by (apply firstn_length_le; assumption).
+      rewrite firstn_app, firstn_firstn, Lw, Nat.min_id, Nat.sub_diag, firstn_O, app_nil_r.
+      rewrite skipn_app, Lw. rewrite (skipn_all2 (firstn w l)) by lia. rewrite app_nil_l.
+      rewrite skipn_skipn'. f_equal. f_equal. lia.
+    + assert (E1 : firstn w l = l) by (apply firstn_all2; lia).
+      assert (E2 : forall m, w <= m -> skipn m l = []) by (intros; apply skipn_all2; lia).
+      rewrite E1, (E2 (S w)), app_nil_r, E1, !E2 by lia. reflexivity.
+Qed.
+
+(* ---------------------------------------------------------- subsequences *)
+Inductive subseq {A} : list A -> list A -> Prop :=
+| sub_nil : subseq [] []
+| sub_keep x a b : subseq a b -> subseq (x :: a) (x :: b)
+| sub_drop x a b : subseq a b -> subseq a (x :: b).
+
+Lemma subseq_refl {A} (l : list A) : subseq l l.
+Proof. induction l; constructor; assumption. Qed.
+
+Lemma subseq_skipn {A} n (a r : list A) : subseq a (skipn n r) -> subseq a r.
+Proof.
+  revert r; induction n as [|n IH]; intros [|x r] H; simpl in H; try assumption.
+  constructor. now apply IH.
+Qed.
+
+Section ParseAndRemove.
+  (* the virtual call: ANY function of the current list and position ... *)
+  Variable tryConsume : list str -> nat -> nat.
+  (* ... that does not claim more arguments than there are (0 <= k <= size - argID) *)
+  Hypothesis tc_bound : forall l i, i < length l -> tryConsume l i <= length l - i.
+
+  (* [run kept rest res]: starting with the arguments [kept] already passed over and
+     [rest] still to look at, the parser ends with the list [res].  Every step is
+     justified by the answer of tryConsume on the list as it is at that moment:
+     answer 0 keeps the argument, answer n > 0 deletes exactly the next n arguments. *)
+  Inductive run : list str -> list str -> list str -> Prop :=
+  | run_done k : run k [] k
+  | run_keep k x r res :
+      tryConsume (k ++ x :: r) (length k) = 0 -> run (k ++ [x]) r res -> run k (x :: r) res
+  | run_take k r n res :
+      n = tryConsume (k ++ r) (length k) -> 0 < n <= length r -> run k (skipn n r) res -> run k r res.
+
+  Lemma firstn_len_app (k r : list str) : firstn (length k) (k ++ r) = k.
+  Proof. rewrite firstn_app, Nat.sub_diag, firstn_all. simpl. apply app_nil_r. Qed.
+
+  Lemma skipn_len_app (k r : list str) n : skipn (length k + n) (k ++ r) = skipn n r.
+  Proof.
+    rewrite skipn_app. rewrite (skipn_all2 k) by lia. simpl. f_equal. lia.
+  Qed.
+
+  Lemma par_loop_run fuel : forall k r,
+    length r <= fuel ->
+    exists res, par_loop tryConsume fuel (k ++ r) (length k) = Some res /\ run k r res.
+  Proof.
+    induction fuel as [|f IH]; intros k r Hf.
+    - destruct r as [|x r]; [|simpl in Hf; lia].
+      exists k. rewrite app_nil_r. simpl. rewrite Nat.ltb_irrefl. split; [reflexivity | constructor].
+    - destruct r as [|x r].
+      + exists k. rewrite app_nil_r. simpl. rewrite Nat.ltb_irrefl. split; [reflexivity | constructor].
+      + cbn [par_loop].
+        assert (Hlt : length k < length (k ++ x :: r)) by (rewrite app_length; simpl; lia).
+        rewrite (proj2 (Nat.ltb_lt _ _) Hlt).
+        pose proof (tc_bound _ _ Hlt) as Hb. rewrite app_length in Hb. simpl in Hb.
+        destruct (Nat.eqb_spec (tryConsume (k ++ x :: r) (length k)) 0) as [E0 | Hn0].
+        * destruct (IH (k ++ [x]) r) as (res & Hres & Hrun); [simpl in Hf; lia|].
+          exists res. rewrite <- app_assoc, app_length, Nat.add_1_r in Hres. simpl in Hres.
+          split; [exact Hres | now apply run_keep].
+        * set (n := tryConsume (k ++ x :: r) (length k)) in *.
+          rewrite al_remove_spec, firstn_len_app, skipn_len_app.
+          destruct (IH k (skipn n (x :: r))) as (res & Hres & Hrun).
+          { rewrite skipn_length. clearbody n. cbn [length] in *. lia. }
+          exists res. split; [exact Hres|].
+          apply (run_take k (x :: r) n res); [reflexivity | clearbody n; cbn [length] in *; lia | exact Hrun].
+  Qed.
+
+  (* the parser never runs out of fuel and ends with what [run] describes *)
+  Lemma parseAndRemove_run l :
+    exists res, parseAndRemove tryConsume l = Some res /\ run [] l res.
+  Proof. exact (par_loop_run (length l) [] l (le_n _)). Qed.
+
+  (* what remains are arguments of the input, in their original order *)
+  Lemma run_subseq k r res : run k r res -> exists kept, res = k ++ kept /\ subseq kept r.
+  Proof.
+    induction 1 as [k | k x r res H0 _ (kept & -> & Hs) | k r n res Hn Hb _ (kept & -> & Hs)].
+    - exists []. rewrite app_nil_r. split; [reflexivity | constructor].
+    - exists (x :: kept). rewrite <- app_assoc. split; [reflexivity | now constructor].
+    - exists kept. split; [reflexivity | now apply (subseq_skipn n)].
+  Qed.
+
+  (* [run] is a function of its inputs: "exactly" the unconsumed arguments *)
+  Lemma run_functional k r res1 : run k r res1 -> forall res2, run k r res2 -> res1 = res2.
+  Proof.
+    induction 1 as [k | k x r res H0 _ IH | k r n res Hn Hb _ IH]; intros res2 H2.
+    - inversion H2; subst; [reflexivity | simpl in *; lia].
+    - inversion H2; subst; [now apply IH | lia].
+    - inversion H2; subst.
+      + simpl in Hb. lia.
+      + lia.
+      + now apply IH.
+  Qed.
+
+  Lemma arglist_remaining l :
+    exists res, parseAndRemove tryConsume l = Some res /\ run [] l res /\ subseq res l /\
+                (forall res', run [] l res' -> res' = res).
+  Proof.
+    destruct (parseAndRemove_run l) as (res & H1 & H2). exists res.
+    split; [assumption|]. split; [assumption|]. split.
+    - destruct (run_subseq _ _ _ H2) as (kept & -> & Hs). exact Hs.
+    - intros res' H'. symmetry. now apply (run_functional _ _ _ H2).
+  Qed.
+End ParseAndRemove.
+
+(* a parser that never consumes leaves the list alone; one that consumes everything empties it *)
+Lemma run_all_kept k r : run (fun _ _ => 0) k r (k ++ r).
+Proof.
+  revert k; induction r as [|x r IH]; intro k.
+  - rewrite app_nil_r. constructor.
+  - apply run_keep; [reflexivity|]. replace (k ++ x :: r) with ((k ++ [x]) ++ r) by now rewrite <- app_assoc. apply IH.
+Qed.
+
+(* ------------------------------------------------------------- removeArgs *)
+Lemma upd_length {A} i (x : A) l : length (upd i x l) = length l.
+Proof. revert i; induction l as [|y l IH]; intros [|i]; simpl; try reflexivity. now rewrite IH. Qed.
+
+Lemma nth_upd {A} p i (x d : A) l :
+  nth p (upd i x l) d = if Nat.eqb p i && Nat.ltb i (length l) then x else nth p l d.
+Proof.
+  revert p i; induction l as [|y l IH]; intros p i.
+  - destruct i, p; simpl; try reflexivity. now rewrite andb_false_r.
+  - destruct i as [|i], p as [|p]; simpl; try reflexivity.
+    rewrite IH. reflexivity.
+Qed.
+
+Lemma ra_loop_spec {A} (d : A) k n : forall i av,
+  k <= i -> i + n <= length av ->
+  length (ra_loop n i k d av) = length av /\
+  forall p, nth p (ra_loop n i k d av) d =
+            if Nat.leb (i - k) p && Nat.ltb p (i - k + n) then nth (p + k) av d else nth p av d.
+Proof.
+  induction n as [|n IH]; intros i av Hk Hi.
+  - split; [reflexivity|]. intro p. simpl. destruct (Nat.leb_spec (i - k) p), (Nat.ltb_spec p (i - k + 0)); simpl; try reflexivity; lia.
+  - cbn [ra_loop]. destruct (IH (S i) (upd (i - k) (nth i av d) av)) as [L Hn]; [lia | rewrite upd_length; lia |].
+    rewrite upd_length in L. split; [exact L|].
+    intro p. rewrite Hn. rewrite !nth_upd.
+    destruct (Nat.leb_spec (S i - k) p), (Nat.ltb_spec p (S i - k + n)),
+             (Nat.leb_spec (i - k) p), (Nat.ltb_spec p (i - k + S n)),
+             (Nat.eqb_spec (p + k) (i - k)), (Nat.eqb_spec p (i - k)), (Nat.ltb_spec (i - k) (length av));
+      simpl; try reflexivity; try lia; f_equal; lia.
+Qed.
+
+Lemma nth_firstn_lt {A} p m (l : list A) d : p < m -> nth p (firstn m l) d = nth p l d.
+Proof.
+  revert p l; induction m as [|m IH]; intros p l H; [lia|].
+  destruct l as [|x l]; [now destruct p|]. destruct p as [|p]; simpl; [reflexivity|]. apply IH. lia.
+Qed.
+
+Lemma nth_skipn_add {A} p m (l : list A) d : nth p (skipn m l) d = nth (m + p) l d.
+Proof.
+  revert l; induction m as [|m IH]; intro l; [reflexivity|].
+  destruct l as [|x l]; [now destruct p|]. simpl. apply IH.
+Qed.
+
+(* removeArgs(ac, av, where, howMany): the first ac' entries of av afterwards are the
+   arguments outside [where, where+howMany), in order *)
+Lemma removeArgs_spec {A} (d : A) ac av w k :
+  length av = ac -> w + k <= ac ->
+  fst (removeArgs d ac av w k) = ac - k /\
+  length (snd (removeArgs d ac av w k)) = ac /\
+  firstn (ac - k) (snd (removeArgs d ac av w k)) = firstn w av ++ skipn (w + k) av.
+Proof.
+  intros Hl Hw. unfold removeArgs. cbn [fst snd].
+  destruct (ra_loop_spec d k (ac - (w + k)) (w + k) av) as [L Hn]; [lia | lia |].
+  split; [reflexivity|]. split; [lia|].
+  apply (nth_ext _ _ d d).
+  - rewrite app_length, !firstn_length, skipn_length. lia.
+  - intros p Hp. rewrite firstn_length in Hp. rewrite nth_firstn_lt by lia. rewrite Hn.
+    destruct (Nat.leb_spec (w + k - k) p), (Nat.ltb_spec p (w + k - k + (ac - (w + k)))); simpl; try lia.
+    + rewrite app_nth2; rewrite firstn_length; [|lia].
+      rewrite nth_skipn_add. f_equal. lia.
+    + rewrite app_nth1 by (rewrite firstn_length; lia). rewrite nth_firstn_lt by lia. reflexivity.
+Qed.
+
+(* ArgumentList(ac, av) drops av[0]; remove(where, k) deletes exactly [where, where+k) *)
+Lemma arglist_remove_spec (av : list str) w k :
+  al_remove (al_ctor av) w k = firstn w (tl av) ++ skipn (w + k) (tl av).
+Proof. apply al_remove_spec. Qed.
